@@ -105,6 +105,10 @@ func (interp *Interpreter) cfg(root *node, sc *scope, importPath, pkgName string
 					n.typ = dest.typ
 				}
 			case binaryExpr, unaryExpr, parenExpr:
+				if n.anc.kind == binaryExpr && isComparisonAction(n.anc.action) {
+					// The operands of a comparison do not have the type of its result.
+					break
+				}
 				n.typ = n.anc.typ
 			}
 
@@ -1005,7 +1009,8 @@ func (interp *Interpreter) cfg(root *node, sc *scope, importPath, pkgName string
 				// Allocate a new location in frame, and store the result here.
 				n.findex = sc.add(n.typ)
 			}
-			if n.typ != nil && !n.typ.untyped {
+			if n.typ != nil && !n.typ.untyped && !isComparisonAction(n.action) {
+				// The boolean type of a comparison is not the type of its operands.
 				fixUntyped(n, sc)
 			}
 
@@ -2378,6 +2383,10 @@ func (interp *Interpreter) cfg(root *node, sc *scope, importPath, pkgName string
 // fixUntyped propagates implicit type conversions for untyped binary expressions.
 func fixUntyped(nod *node, sc *scope) {
 	nod.Walk(func(n *node) bool {
+		if n != nod && n.kind == binaryExpr && isComparisonAction(n.action) {
+			// The operands of a comparison do not have the type of its result.
+			return false
+		}
 		if n == nod || (n.kind != binaryExpr && n.kind != parenExpr) || !n.typ.untyped {
 			return true
 		}
